@@ -48,6 +48,11 @@ CHECKS = {
         'are excluded explicitly (ranges_preserved_partial). 128K paging: refinement to "mapping = f(last accepted write)", lock absorbing, one-bank writes, visible slots, decode mask = A15/A1 over all 65536 ports. '
         'C simulators: differential execution against the model (all 1792 slots) and program-level oracle only.',
    note=TB + 'translator py2lean.py/cdispatch.py trusted but validated each run (all slots x random boundary states, 4 implementations); Mem128 hand model tied by correspondence', ref='§8 C08'),
+ 'C15': dict(cat='proof', technique='Lean 4 theorems (induction over byte strings / tile rows; decide over 256-entry tables) + model/implementation correspondence on pre-zlib scanlines + e2e with an independent PNG/APNG decoder and renderer',
+   text='32 theorems: table-driven CRC = bit-serial CRC-32 for all byte strings; chunk framing and whole-file structure (IHDR/PLTE/tRNS/acTL/fcTL/IDAT/fdAT/IEND order, sequence numbers); '
+        'mask truth tables; flip/rotate laws and pixel maps; attribute rules; generic scanline builder pixel theorem for all arrays, scales, crops, masks and depths; the six specialised encoders equal the generic one; '
+        'flash rectangle inside the frame and second frame = ink/paper exchanged. zlib trusted; palette construction and tindex/alpha are e2e only.',
+   note=TB + 'hand models Model/PngCrc, ZxTile, PngScan tied by correspondence (10k ops/run); zlib trusted', ref='§8 C15'),
 }
 NA = {}
 def main():
